@@ -78,7 +78,7 @@ PROPS["C10"] = {"engines": [{"engine": "waldmg", "shim": True}],
                 "explanation": "A damaged log is rejected with an error or yields exactly the index (key -> hash,size) after the longest undamaged prefix, never a panic, for every truncation offset and every single-byte change of checksum/payload."}
 
 PROPS["C08"] = {"engines": [{"engine": "plant", "shim": False}, {"engine": "crash", "shim": True}],
-                "rule": ("PLANT: every subset (size <= 2 quick / 3 thorough) of an 11-item garbage/corruption menu is planted into every closed store of every history up to the stated depth; "
+                "rule": ("PLANT: every subset (size <= 2 quick / 3 thorough) of an 12-item garbage/corruption menu is planted into every closed store of every history up to the stated depth; "
                          "open_with_recover (verify on and off) must report exactly the independently computed orphan / invalid / missing / corrupted / staging sets; delete_orphans, "
                          "delete_orphan and quarantine_orphans must remove exactly the garbage and never a referenced blob. CRASH: the same comparison on every crash image. " + CRASH_RULE),
                 "explanation": "Orphan scan exactness and clean-up safety on every crash image and under exhaustive small subsets of planted garbage. The concurrent clause (clean-up vs put of orphaned content) is decided by the SCHED engine when present."}
@@ -160,7 +160,7 @@ NOT_APPLICABLE = {}
 SEQTX_RULE = ("SEQTX: every sequence of the stated depth over 13 symbols (begin / write / finish / drop on two transaction slots, atomic put, remove, reopen) after the stated "
               "prefix; symbols not applicable in the current state are skipped; after every step the full observation is compared with the model (staging/ must hold exactly one "
               "file per open transaction). states = distinct (map, open slots, log position); transitions = steps.")
-PLANT_RULE = ("PLANT: every subset (size <= 2 quick / 3 thorough) of an 11-item garbage/corruption menu planted into every closed store of every history up to the stated depth; "
+PLANT_RULE = ("PLANT: every subset (size <= 2 quick / 3 thorough) of an 12-item garbage/corruption menu planted into every closed store of every history up to the stated depth; "
               "open_with_recover (verify on and off) must report exactly the independently computed sets; delete_orphans, delete_orphan and quarantine_orphans must remove exactly the garbage.")
 ENGINE_RULES = {
     "seq": "SEQ: " + SEQ_RULE,
